@@ -1,4 +1,5 @@
 PROP = dict(
+    thorough_seeds=48,
     module="M3d.Props.C05",
     corr=dict(quick=150, thorough=1000),
     gen=["Kernels"],
